@@ -196,6 +196,9 @@ func costCommand(args []string) bool {
 	}
 	var rows []row
 	for _, f := range families {
+		// announce the family first (one JSON object per line, flushed): if the process is killed while measuring it
+		// (a quadratic family can exhaust memory or time), the reader knows which one it was
+		fmt.Printf("{\"starting\": %q}\n", f.Name)
 		measure(f, 64) // warm up
 		a1, m1 := measure(f, n)
 		a4, m4 := measure(f, 4*n)
@@ -217,9 +220,9 @@ func costCommand(args []string) bool {
 			r.TimeRatio = float64(t4) / float64(t1)
 		}
 		rows = append(rows, r)
+		b, _ := json.Marshal(r)
+		fmt.Println(string(b))
 	}
-	b, _ := json.MarshalIndent(rows, "", " ")
-	fmt.Println(string(b))
 	return true
 }
 
@@ -348,6 +351,11 @@ func raceCommand(args []string) bool {
 			j.in = genRef(r, "")
 			if j.kind == 7 && r.P(50) {
 				j.in = r.Pick([]string{"#a", "", "?q", "#", "x", "/", "//h2/p"})
+			}
+			// a reference that repeats the base's own scheme without a slash takes the base's path over (file, and the
+			// special-relative branch): the shared base must still only be read
+			if (j.kind == 1 || j.kind == 7) && r.P(25) {
+				j.in = basesSeq[j.base].Scheme() + ":" + r.Pick([]string{"a.html", "sub/c.html", "../d", "", "x?y#z"})
 			}
 		}
 		j.want = run(j, basesSeq)
